@@ -18,6 +18,10 @@ func init() {
 				pdb + "Close":                 "c31PebbleCloseModel",
 				pdb + "DeleteRange":           "c31PebbleDeleteRangeModel",
 				pdb + "NewBatch":              "c31PebbleNewBatchModel",
+				pdb + "Put":                   "c31PebblePutModel",
+				pdb + "Delete":                "c31PebbleDeleteModel",
+				pdb + "Get":                   "c31PebbleGetModel",
+				pdb + "Has":                   "c31PebbleHasModel",
 				pdb + "NewIteratorWithPrefix": "c31PebbleIterPrefixModel",
 				"github.com/ava-labs/hypersdk/api/indexer.c31TempDir":   "c31TempDirModel",
 				"github.com/ava-labs/hypersdk/api/indexer.c31RemoveDir": "c31RemoveDirModel",
